@@ -373,7 +373,7 @@ pub fn run(ctx: &RunCtx) {
     ctx.mark_exhaustive(format!("all histories of length <= {max_len} over 9 operations (exit only with an open non-global scope)"));
 
     // random long histories
-    let n = ctx.pick(20_000u64, 1_000_000u64);
+    let n = ctx.pick(200_000u64, 2_000_000u64);
     ctx.random("random-history", n, 420, |src| {
         let mut fails = vec![];
         let mut st = initial(&mut fails);
